@@ -86,6 +86,18 @@ def _value_class_name(options):
     return {'fixed': 'Fixed', 'integer': 'Fixed', 'rational': 'Rational'}.get(a, 'Guarded')
 
 
+OP_WALL = 120.0            # seconds for one predecessor operation (milliseconds normally, seconds for wide ones)
+OP_WALL_PARSE = 10.0       # seconds for a predecessor that only parses a damaged file
+
+
+class OpTimeout(BaseException):
+    "a predecessor operation did not return"
+
+
+def _op_alarm(signum, frame):       # pylint: disable=unused-argument
+    raise OpTimeout()
+
+
 def exec_session(R, texts, ops, target, want_fp=False):
     """run the history, then the target; returns the target's outcome and an event log.
 
@@ -180,8 +192,12 @@ def exec_session(R, texts, ops, target, want_fp=False):
         return render(E, op['render'], interrupted), interrupted
     fs = simfs.SimFS()
     with sunk_stdout(), simfs.mounted(R.droop.profile, fs), simfs.stat_patched(fs):
+        signal.signal(signal.SIGALRM, _op_alarm)
         for op in ops:
             kind = op['op']
+            # a predecessor that hangs (a tree whose parser or counter loops on some input) must not block the
+            # session: it is logged and the history goes on
+            signal.setitimer(signal.ITIMER_REAL, OP_WALL_PARSE if kind == 'parse-fails' else OP_WALL)
             try:
                 if kind == 'count':
                     outs, _ = do_count(op)
@@ -214,9 +230,14 @@ def exec_session(R, texts, ops, target, want_fp=False):
             except BudgetExceeded:
                 sys.settrace(None)
                 log.append([kind, 'budget'])
+            except OpTimeout:
+                sys.settrace(None)
+                log.append([kind, 'timeout'])
             except BaseException as e:      # pylint: disable=broad-except
                 sys.settrace(None)
                 log.append([kind, 'raises', type(e).__name__])
+            finally:
+                signal.setitimer(signal.ITIMER_REAL, 0)
         fp = None
         if want_fp:
             fp = fingerprint()
